@@ -5,7 +5,7 @@ package common
 //verif:property C29
 //verif:bound base32 (standard alphabet, padding): every byte string of 0..7 bytes
 //verif:bound ConvertBits 8->5->8: every byte string of 1, 5 and 20 bytes
-//verif:bound address round trip: P2WPKH (20-byte) and P2WSH (32-byte) programs on mainnet, testnet and solonet in which the last 1 or 2 bytes are arbitrary (quick; thorough adds an arbitrary first byte) and the other bytes follow the fixed pattern 11+37*i; decoding under the two other networks' parameters must fail
+//verif:bound address round trip: P2WPKH (20-byte) and P2WSH (32-byte) programs on mainnet, testnet and solonet in which the last byte is arbitrary (quick; thorough: the last 2 bytes, or the first byte) and the other bytes follow the fixed pattern 11+37*i; decoding under the two other networks' parameters must fail
 //verif:bound single-character corruption: such a mainnet P2WPKH address (42 characters), one position replaced by any other ASCII byte; quick: positions 0..2 (prefix, separator) and 30..41 (end of data, checksum); thorough adds positions 18..29
 //verif:bound arbitrary input: DecodeAddress and Bech32Decode on every string of 9 ASCII bytes (quick), 10 (thorough)
 //verif:assume strings.ToLower / ToUpper / LastIndexByte / (*strings.Builder).String are modelled by engine intrinsics that are exact on ASCII strings (standard library, not code under test); inputs are therefore restricted to bytes below 0x80
@@ -13,8 +13,8 @@ package common
 //verif:outside wallet/mnemonic (SHA-256, big.Int, 2048-word list), base32 stream encoder/decoder and inputs above 7 bytes, non-ASCII strings, strings longer than 10 bytes in the no-panic claim
 //verif:obligation fn=VerifC29Base32 args=0;1;2;3;4;5;6;7 validate=12
 //verif:obligation fn=VerifC29ConvertBits args=1;5;20 validate=12
-//verif:obligation fn=VerifC29Address args=20,0,1,19;32,0,1,31;20,1,1,19;32,2,1,31;20,2,2,18 idx=ite solver=z3-bv timeout=120000 validate=12
-//verif:obligation fn=VerifC29Address args=20,0,1,0;32,0,1,0;32,1,2,30 idx=ite solver=z3-bv timeout=900000 tier=thorough secs=1700
+//verif:obligation fn=VerifC29Address args=20,0,1,19;32,0,1,31;20,1,1,19;32,2,1,31;20,2,1,19 idx=ite solver=z3-bv timeout=120000 validate=12
+//verif:obligation fn=VerifC29Address args=20,0,1,0;32,0,1,0;32,1,2,30;20,2,2,18 idx=ite solver=z3-bv timeout=900000 tier=thorough secs=1700
 //verif:obligation fn=VerifC29Corrupt args=20,0,0,2;20,0,30,33;20,0,34,37;20,0,38,41 idx=ite solver=z3-bv timeout=120000 validate=12
 //verif:obligation fn=VerifC29Corrupt args=20,0,18,21;20,0,22,25;20,0,26,29 idx=ite solver=z3-bv timeout=900000 tier=thorough secs=1700
 //verif:obligation fn=VerifC29DecodeAny args=9,0 idx=ite solver=z3-bv timeout=120000 validate=12
